@@ -47,7 +47,7 @@ thread_local! {
     static SECP: secp::Secp256k1<secp::All> = secp::Secp256k1::new();
 }
 
-fn gen_pools(rng: &mut Rng) -> Pools {
+pub fn gen_pools(rng: &mut Rng) -> Pools {
     let mut keys = Vec::new();
     while keys.len() < 4 {
         let mut sk = [0u8; 32];
@@ -93,7 +93,7 @@ pub fn lock_truth(spec: &TxSpec) -> LockTruth {
     LockTruth { height, distance }
 }
 
-fn gen_pol(rng: &mut Rng, depth: usize, lt: &LockTruth, budget: &mut usize) -> Pol {
+pub fn gen_pol(rng: &mut Rng, depth: usize, lt: &LockTruth, budget: &mut usize) -> Pol {
     let leaf = depth == 0 || *budget == 0 || rng.chance(1, 5);
     *budget = budget.saturating_sub(1);
     if leaf {
@@ -130,7 +130,7 @@ fn gen_pol(rng: &mut Rng, depth: usize, lt: &LockTruth, budget: &mut usize) -> P
     }
 }
 
-fn to_policy(p: &Pol, pools: &Pools) -> P {
+pub fn to_policy(p: &Pol, pools: &Pools) -> P {
     match p {
         Pol::Unsat(b) => Policy::Unsatisfiable(entropy(*b)),
         Pol::Trivial => Policy::Trivial,
@@ -313,7 +313,7 @@ impl<'b> Satisfier<'b, XOnlyPublicKey> for Sat<'b> {
 }
 
 /// Lock time and sequences chosen so that height and distance locks are live in many cases.
-fn tune_locks(rng: &mut Rng, spec: &mut TxSpec) {
+pub fn tune_locks(rng: &mut Rng, spec: &mut TxSpec) {
     spec.version = *rng.pick(&[1u32, 2, 2, 2, 2, 3, 0xffff_ffff]);
     spec.locktime = match rng.below(6) {
         0 => 0,
@@ -333,6 +333,26 @@ fn tune_locks(rng: &mut Rng, spec: &mut TxSpec) {
             _ => rng.next_u32(),
         };
     }
+}
+
+/// Satisfy `policy` with signatures (over the environment's sighash) for the available keys,
+/// preimages for the available hashes and the true lock answers. Returns the result and the number of satisfier queries.
+pub fn satisfy_with(policy: &P, pools: &Pools, avail: &Avail, lt: &LockTruth, env: &txgen::Env) -> (Result<Arc<simplicity::RedeemNode>, SatisfierError>, u64) {
+    let msg = secp::Message::from_digest(env.c_tx_env().sighash_all().to_byte_array());
+    Context::with_context(|ctx| {
+        let mut sat = Sat { ctx, sigs: HashMap::new(), pre: HashMap::new(), lt: LockTruth { height: lt.height, distance: lt.distance }, queries: std::cell::Cell::new(0) };
+        for i in 0..4 {
+            if avail.keys[i] {
+                let sig = SECP.with(|s| s.sign_schnorr_no_aux_rand(&msg, &pools.keys[i].0));
+                sat.sigs.insert(pools.keys[i].1, SchnorrSig { sig, hash_ty: SchnorrSighashType::All });
+            }
+            if avail.pre[i] {
+                sat.pre.insert(pools.pre[i].1, pools.pre[i].0);
+            }
+        }
+        let r = policy.satisfy(&sat, env);
+        (r, sat.queries.get())
+    })
 }
 
 fn one_case(rng: &mut Rng, case: &mut Case) -> Outcome {
@@ -366,8 +386,6 @@ fn one_case(rng: &mut Rng, case: &mut Case) -> Outcome {
         Err(pn) => return violated("panic:env-build", pn),
     };
     // the jets agree with the model about the lock truth (keeps the oracle honest)
-    let sighash = env.c_tx_env().sighash_all();
-    let msg = secp::Message::from_digest(sighash.to_byte_array());
 
     // 2. satisfaction under several availability patterns
     let n_pat = 4;
@@ -387,22 +405,7 @@ fn one_case(rng: &mut Rng, case: &mut Case) -> Outcome {
         };
         let expect = truth(&pol, &avail, &lt);
         let what = format!("available keys {:?} preimages {:?} lock height {} distance {} ; {}", avail.keys, avail.pre, lt.height, lt.distance, case.desc);
-        let res = guard(|| {
-            Context::with_context(|ctx| {
-                let mut sat = Sat { ctx, sigs: HashMap::new(), pre: HashMap::new(), lt: LockTruth { height: lt.height, distance: lt.distance }, queries: std::cell::Cell::new(0) };
-                for i in 0..4 {
-                    if avail.keys[i] {
-                        let sig = SECP.with(|s| s.sign_schnorr_no_aux_rand(&msg, &pools.keys[i].0));
-                        sat.sigs.insert(pools.keys[i].1, SchnorrSig { sig, hash_ty: SchnorrSighashType::All });
-                    }
-                    if avail.pre[i] {
-                        sat.pre.insert(pools.pre[i].1, pools.pre[i].0);
-                    }
-                }
-                let r = policy.satisfy(&sat, &env);
-                (r, sat.queries.get())
-            })
-        });
+        let res = guard(|| satisfy_with(&policy, &pools, &avail, &lt, &env));
         let (res, queries) = match res {
             Ok(x) => x,
             Err(pn) => return violated("panic:satisfy", format!("{} ; {}", pn, what)),
@@ -545,26 +548,11 @@ fn exhaustive_case(case: &mut Case, rng: &mut Rng) -> Outcome {
     }
     spec.script_cmr = cmr.to_byte_array();
     let env = txgen::build_env(&spec);
-    let msg = secp::Message::from_digest(env.c_tx_env().sighash_all().to_byte_array());
     for pat in 0..8u32 {
         let avail = Avail { keys: [pat & 1 != 0, pat & 2 != 0, false, false], pre: [pat & 4 != 0, false, false, false] };
         let expect = truth(&pol, &avail, &lt);
         let what = format!("available pk0={} pk1={} sha0={} lock height {} distance {} ; {}", avail.keys[0], avail.keys[1], avail.pre[0], lt.height, lt.distance, case.desc);
-        let res = guard(|| {
-            Context::with_context(|ctx| {
-                let mut sat = Sat { ctx, sigs: HashMap::new(), pre: HashMap::new(), lt: LockTruth { height: lt.height, distance: lt.distance }, queries: std::cell::Cell::new(0) };
-                for i in 0..2 {
-                    if avail.keys[i] {
-                        let sig = SECP.with(|s| s.sign_schnorr_no_aux_rand(&msg, &pools.keys[i].0));
-                        sat.sigs.insert(pools.keys[i].1, SchnorrSig { sig, hash_ty: SchnorrSighashType::All });
-                    }
-                }
-                if avail.pre[0] {
-                    sat.pre.insert(pools.pre[0].1, pools.pre[0].0);
-                }
-                policy.satisfy(&sat, &env)
-            })
-        });
+        let res = guard(|| satisfy_with(&policy, &pools, &avail, &lt, &env).0);
         let res = match res {
             Ok(x) => x,
             Err(pn) => return violated("panic:satisfy", format!("{} ; {}", pn, what)),
